@@ -96,12 +96,12 @@ def decoskip_context(case, rec, at):
     return ':decorator-skipped-test-never-started' if skips else ''
 
 
-def run_cases(chk, fam, cases, label='', peers=None):
+def run_cases(chk, fam, cases, label='', peers=None, python=None):
     """execute + validate; every clause of family `fam` that TLC reports
     becomes a violation (or a known finding).  peers: {case id: [ids of the
     runs of the same world in other execution modes]} -- their reports are
     attached so that TLC compares the modes."""
-    res = core.execute(cases)
+    res = core.execute(cases, python=python)
     recs = [core.trace_record(c, res[c['id']]) for c in cases]
     if peers:
         by_id = {r['id']: r for r in recs}
